@@ -440,7 +440,7 @@ class PCheck(core.Check):
     world = 'P'
     mode = 'fleet'
     chunk = 1
-    run_timeout = 100
+    run_timeout = 150
     focus = None
     properties = ()              # property ids whose invariants decide the verdict
     list_keys = ()               # minimisation goes through simplifications()
@@ -865,7 +865,7 @@ class C11Check(PCheck):
     id = 'C11'
     focus = 'C11'
     properties = ('C11',)
-    run_timeout = 100
+    run_timeout = 150
     rule = ('scenario = group of simulated martinize2 runs on one derived structure and option set: a baseline and 3-5 variants '
             '(other PYTHONHASHSEED in another interpreter; atoms shuffled within residues; hydrogens renamed; one of the 24 cube '
             'rotations plus a lattice translation applied to the file; an arbitrary rotation applied in memory after reading; '
